@@ -677,10 +677,37 @@ class Interp:
                 res.append(o)
         return res
 
+    def ctor_value(self, path, args):
+        """`Some` / `Ok` / `Err` / a tuple-variant or tuple-struct constructor of the crate used as a function."""
+        last = path.rsplit("::", 1)[-1]
+        if path.startswith("std::") or path.startswith("core::"):
+            if last == "Some" and len(args) == 1:
+                return some(args[0])
+            if last == "Ok" and len(args) == 1:
+                return ok(args[0])
+            if last == "Err" and len(args) == 1:
+                return err(args[0])
+            return None
+        owner = path.rsplit("::", 1)[0] if "::" in path else ""
+        for crate in ("anything", "any"):
+            a = self.facts.adt(owner, crate)
+            if a is not None:
+                for i, v in enumerate(a["variants"]):
+                    if v["name"] == last and len(v["fields"]) == len(args):
+                        return Agg("adt", owner, i, last, tuple(args))
+            a = self.facts.adt(path, crate)
+            if a is not None and not a["is_enum"] and len(a["variants"][0]["fields"]) == len(args):
+                return Agg("adt", path, 0, a["variants"][0]["name"], tuple(args))
+        return None
+
     def apply_closure(self, clos, args, st, depth):
         """Call a closure value (Agg kind 'closure') or fn item with the given argument values."""
         path = clos.path if isinstance(clos, (Agg, FnV)) else None
         body = self.facts.fn(path) if path else None
+        if body is None and isinstance(clos, FnV):
+            v = self.ctor_value(path, list(args))
+            if v is not None:
+                return [("ret", v, st)]
         if body is None or depth >= self.dom.inline_depth + 2:
             return None
         if isinstance(clos, Agg):
